@@ -150,6 +150,30 @@ static void check_support(const WinC2 &c, vf::Obs &o) {
   }
 }
 
+// checked accessors document "throws if out of bounds": accepted IFF the index is inside the view
+static void check_access(const WinC2 &c, vf::Obs &o) {
+  size_t n = (size_t)std::max<i64>(2, c.n);
+  Grd g = simple_grid(n);
+  size_t s = (size_t)std::max<i64>(0, std::min<i64>(c.s >= 0 ? c.s : 0, (i64)n - 1)), e = s + 1 + (size_t)((c.e >= 0 ? c.e : -c.e) % (i64)(n - s));
+  Sup x(g, s, e);
+  o.nt(true);
+  for (i64 code : {c.s, c.e, (i64)-1, (i64)-2, -(i64)s, -(i64)s - 1, (i64)(e - s), (i64)(e - s) - 1, (i64)0}) {
+    size_t i = idx(code);
+    bool valid = i < e - s;
+    std::string what;
+    double got = -1;
+    int r1 = outcome([&] { got = x.at(i); }, what);
+    EXPECT_IFF(o, valid, r1, what, "Support[" << s << "," << e << ").at(" << i << ")");
+    if (valid) VCHECK(o, got == (double)(s + i), "Support::at returned the wrong grid point");
+    size_t abs_i = 0;
+    int r2 = outcome([&] { abs_i = x.absoluteFromRelative(i); }, what);
+    EXPECT_IFF(o, valid, r2, what, "Support[" << s << "," << e << ").absoluteFromRelative(" << i << ")");
+    if (valid) VCHECK(o, abs_i == s + i, "absoluteFromRelative returned the wrong index");
+    int r3 = outcome([&] { got = g.at(i); }, what);
+    EXPECT_IFF(o, i < n, r3, what, "Grid::at(" << i << ")");
+  }
+}
+
 // ---------------------------------------------------------------- Spline
 struct SplC {
   i64 n = 2, s = 0, e = 0, count = 0, order = 0;
@@ -399,6 +423,11 @@ int main(int argc, char **argv) {
     c.s = ix(); c.e = ix();
     if (chance(30)) { c.s = pick(0, c.n - 1); c.e = pick(c.s + 1, c.n); }
     return c; }), check_support);
+  vf::add_sub<WinC2>("checked-accessors", 800, rc::gen::exec([] {
+    WinC2 c; c.n = pick(2, 9);
+    auto ix = [&]() -> i64 { return chance(60) ? pick(0, c.n + 2) : -pick(1, c.n + 3); };
+    c.s = chance(70) ? pick(0, c.n - 1) : ix(); c.e = ix();
+    return c; }), check_access);
   vf::add_sub<SplC>("spline", 1500, rc::gen::exec([] {
     SplC c; c.n = pick(2, 7); c.s = pick(0, c.n - 1); c.e = pick(c.s, c.n); c.order = pick(0, 4);
     i64 nint = c.e - c.s >= 2 ? c.e - c.s - 1 : 0;
